@@ -1036,4 +1036,613 @@ theorem tryFromBytes_encode (r : Rec) (tail : Bytes) (hv : r.name.length ≤ 255
   congr 2
   omega
 
+/-! ### create_dir_all: paths ending in separators -/
+
+theorem splitSlash_ne_nil (p : Bytes) : splitSlash p ≠ [] := by
+  cases p with
+  | nil => simp [splitSlash]
+  | cons b r =>
+    unfold splitSlash
+    split
+    · simp
+    · split <;> simp
+
+theorem splitSlash_append_slash (xs : Bytes) : splitSlash (xs ++ [SLASH]) = splitSlash xs ++ [[]] := by
+  induction xs with
+  | nil => simp [splitSlash]
+  | cons b r ih =>
+    simp only [List.cons_append, splitSlash]
+    split
+    · rw [ih]; simp
+    · rw [ih]
+      cases h : splitSlash r with
+      | nil => exact absurd h (splitSlash_ne_nil r)
+      | cons a t => simp
+
+theorem comps_append_slash (xs : Bytes) : comps (xs ++ [SLASH]) = comps xs := by
+  unfold comps
+  rw [splitSlash_append_slash]
+  simp
+
+/-- the location a path names, read lexically: from the root for an absolute path, from the working directory
+otherwise, through its non-empty components (what `parsePath` answers whenever the kernel accepts the path) -/
+def pathLoc (st : FS) (p : Bytes) : List Name := (if p.head? = some SLASH then [] else st.cwd) ++ comps p
+
+theorem parsePath_ok_loc (st : FS) (p : Bytes) (loc : List Name) (tr : Bool) (h : parsePath st p = .ok (loc, tr)) :
+    loc = pathLoc st p ∧ (comps p).any isDots = false ∧ p.length < PATH_MAX ∧ p ≠ [] := by
+  unfold parsePath at h
+  by_cases h1 : p = []
+  · simp [h1] at h
+  · simp only [h1, if_false] at h
+    by_cases h2 : p.length ≥ PATH_MAX
+    · simp [h2] at h
+    · simp only [h2, if_false] at h
+      by_cases h3 : (comps p).any isDots = true
+      · simp [h3] at h
+      · simp only [h3] at h
+        simp at h
+        refine ⟨?_, by simpa using h3, by omega, h1⟩
+        unfold pathLoc
+        exact h.1.symm
+
+theorem parsePath_of (st : FS) (p : Bytes) (h1 : p ≠ []) (h2 : p.length < PATH_MAX)
+    (h3 : (comps p).any isDots = false) : ∃ tr, parsePath st p = .ok (pathLoc st p, tr) := by
+  unfold parsePath pathLoc
+  have h2' : ¬ p.length ≥ PATH_MAX := by omega
+  simp only [h1, h2', h3, if_false]
+  exact ⟨_, rfl⟩
+
+theorem pathLoc_append_slash (st : FS) (xs : Bytes) (h : xs ≠ []) : pathLoc st (xs ++ [SLASH]) = pathLoc st xs := by
+  unfold pathLoc
+  rw [comps_append_slash]
+  cases xs with
+  | nil => exact absurd rfl h
+  | cons a r => simp
+
+theorem pathLoc_cwd (st st' : FS) (p : Bytes) (h : st'.cwd = st.cwd) : pathLoc st' p = pathLoc st p := by
+  unfold pathLoc; rw [h]
+
+/-- a path ending in a separator is the path without it followed by that separator -/
+theorem eq_take_append_slash (p : Bytes) (hl : p.getLast? = some SLASH) : p = p.take (p.length - 1) ++ [SLASH] := by
+  have hne : p ≠ [] := by intro h; subst h; simp at hl
+  have h1 := List.dropLast_concat_getLast hne
+  have h2 : p.getLast hne = SLASH := by
+    rw [List.getLast?_eq_some_getLast hne] at hl; exact Option.some.inj hl
+  rw [h2, List.dropLast_eq_take] at h1
+  exact h1.symm
+
+/-- the upward loop over a remainder that ends in a separator: its last `mkdir` is the one on everything before
+that final separator, and its answer is the loop's result -/
+theorem scanUp_last (rest : Bytes) : ∀ (st st2 : FS) (done : Bytes) (ex ex2 : Bool),
+    scanUp st done ex rest = (st2, .ok ex2) → rest.getLast? = some SLASH →
+    ∃ sp, mkdirOrExists sp (done ++ rest.dropLast) = (st2, .ok ex2) := by
+  induction rest with
+  | nil => intro st st2 done ex ex2 h hl; simp at hl
+  | cons b rest ih =>
+    intro st st2 done ex ex2 h hl
+    unfold scanUp at h
+    cases rest with
+    | nil =>
+      simp at hl
+      subst hl
+      simp only [if_true] at h
+      cases hm : mkdirOrExists st done with
+      | mk st' r =>
+        rw [hm] at h
+        cases r with
+        | error e => simp at h
+        | ok ex' =>
+          simp only [scanUp] at h
+          refine ⟨st, ?_⟩
+          simp only [List.dropLast_singleton, List.append_nil]
+          rw [hm]; exact h
+    | cons c rest' =>
+      have hl' : (c :: rest').getLast? = some SLASH := by simpa [List.getLast?_cons_cons] using hl
+      have hd : (b :: c :: rest').dropLast = b :: (c :: rest').dropLast := by simp [List.dropLast]
+      rw [hd]
+      by_cases hb : b = SLASH
+      · simp only [hb, if_true] at h
+        cases hm : mkdirOrExists st done with
+        | mk st' r =>
+          rw [hm] at h
+          cases r with
+          | error e => simp at h
+          | ok ex' =>
+            simp only at h
+            obtain ⟨sp, hsp⟩ := ih st' st2 (done ++ [SLASH]) ex' ex2 h hl'
+            refine ⟨sp, ?_⟩
+            rw [hb]
+            simpa [List.append_assoc] using hsp
+      · simp only [hb, if_false] at h
+        obtain ⟨sp, hsp⟩ := ih st st2 (done ++ [b]) ex ex2 h hl'
+        exact ⟨sp, by simpa [List.append_assoc] using hsp⟩
+
+/-- the downward scan either finds nothing (index 0, nothing remembered) or stops right after a `mkdir` on the
+prefix before a separator, remembering that call's answer -/
+theorem scanDown_res (buf : Bytes) (n : Nat) : ∀ (st st1 : FS) (ind : Nat) (ex : Bool),
+    scanDown st buf n = (st1, .ok (ind, ex)) →
+    (ind = 0 ∧ ex = false) ∨ (1 ≤ ind ∧ ind ≤ n ∧ ∃ sp, mkdirOrExists sp (buf.take ind) = (st1, .ok ex)) := by
+  induction n with
+  | zero =>
+    intro st st1 ind ex h
+    simp [scanDown] at h
+    exact Or.inl ⟨h.2.1.symm, h.2.2⟩
+  | succ n ih =>
+    intro st st1 ind ex h
+    unfold scanDown at h
+    split at h
+    · cases hm : mkdirOrExists st (buf.take (n + 1)) with
+      | mk st' r =>
+        rw [hm] at h
+        cases r with
+        | ok ex' =>
+          simp at h
+          obtain ⟨h1, h2, h3⟩ := h
+          subst h1 h2 h3
+          exact Or.inr ⟨by omega, by omega, st, hm⟩
+        | error e =>
+          simp only at h
+          split at h
+          · rcases ih st' st1 ind ex h with h | ⟨h1, h2, h3⟩
+            · exact Or.inl h
+            · exact Or.inr ⟨h1, by omega, h3⟩
+          · simp at h
+    · rcases ih st st1 ind ex h with h | ⟨h1, h2, h3⟩
+      · exact Or.inl h
+      · exact Or.inr ⟨h1, by omega, h3⟩
+
+theorem mkdirOrExists_created (sp st : FS) (q : Bytes) (h : mkdirOrExists sp q = (st, .ok false)) :
+    stat st q = .ok .dir := by
+  unfold mkdirOrExists at h
+  cases hmk : mkdirat sp q with
+  | mk st4 r4 =>
+    rw [hmk] at h
+    cases r4 with
+    | ok u =>
+      simp at h
+      subst h
+      exact mkdirat_ok_stat _ _ _ hmk
+    | error e =>
+      simp only at h
+      split at h <;> simp at h
+
+theorem view_dir (r : Node) (q : List Name) (h : view r q = some .dir) : ∃ es, getAt r q = some (.dir es) := by
+  unfold view at h
+  cases hg : getAt r q with
+  | none => simp [hg] at h
+  | some n => cases n <;> simp_all [Node.kind]
+
+/-- `write_all_sub_paths` on a path that ends in a separator and is not just `/`: on Ok, either the last `mkdir` (on
+the path without its final separator) created the directory, or the final `stat` of the whole path saw a directory -/
+theorem writeAllSubPaths_trailing (st st' : FS) (p : Bytes) (hl : p.getLast? = some SLASH) (h2 : 2 ≤ p.length)
+    (hw : writeAllSubPaths st p = (st', .ok ())) :
+    stat st' (p.take (p.length - 1)) = .ok .dir ∨ stat st' p = .ok .dir := by
+  unfold writeAllSubPaths at hw
+  cases hd : scanDown st p (p.length - 1) with
+  | mk st1 r1 =>
+    rw [hd] at hw
+    cases r1 with
+    | error e => simp at hw
+    | ok ie =>
+      obtain ⟨ind, ex⟩ := ie
+      simp only at hw
+      cases hu : scanUp st1 (p.take (ind + 1)) ex (p.drop (ind + 1)) with
+      | mk st2 r2 =>
+        rw [hu] at hw
+        cases r2 with
+        | error e => simp at hw
+        | ok ex2 =>
+          simp only [hl, if_true] at hw
+          -- the last mkdir
+          have hlast : ∃ sp, mkdirOrExists sp (p.take (p.length - 1)) = (st2, .ok ex2) := by
+            have hres := scanDown_res p (p.length - 1) st st1 ind ex hd
+            by_cases hrest : p.drop (ind + 1) = []
+            · have hge : p.length ≤ ind + 1 := by simpa using hrest
+              rw [hrest] at hu
+              simp [scanUp] at hu
+              obtain ⟨hu1, hu2⟩ := hu
+              subst hu1 hu2
+              rcases hres with ⟨h0, _⟩ | ⟨h1, hle, sp, hsp⟩
+              · omega
+              · have : ind = p.length - 1 := by omega
+                subst this
+                exact ⟨sp, hsp⟩
+            · have hlt : ind + 1 < p.length := by
+                have : ¬ p.length ≤ ind + 1 := by simpa using hrest
+                omega
+              have hgl : (p.drop (ind + 1)).getLast? = some SLASH := by
+                rw [List.getLast?_drop]
+                simp only [hl]
+                have : ¬ p.length ≤ ind + 1 := by omega
+                simp [this]
+              obtain ⟨sp, hsp⟩ := scanUp_last _ st1 st2 _ ex ex2 hu hgl
+              refine ⟨sp, ?_⟩
+              have : p.take (ind + 1) ++ (p.drop (ind + 1)).dropLast = p.take (p.length - 1) := by
+                rw [List.dropLast_eq_take, List.length_drop]
+                have : p.length - 1 = (ind + 1) + (p.length - (ind + 1) - 1) := by omega
+                rw [this]
+                exact List.take_add.symm
+              rw [this] at hsp
+              exact hsp
+          obtain ⟨sp, hsp⟩ := hlast
+          cases ex2 with
+          | false =>
+            simp at hw
+            subst hw
+            exact Or.inl (mkdirOrExists_created sp _ _ hsp)
+          | true =>
+            simp only at hw
+            cases hs : stat st2 p with
+            | error e => rw [hs] at hw; simp at hw
+            | ok k =>
+              rw [hs] at hw
+              cases k <;> simp at hw
+              subst hw
+              exact Or.inr hs
+
+/-- on Ok the location the path names lexically holds a directory -/
+theorem createDirAll_dirAt (st st' : FS) (p : Bytes) (hroot : ∃ es, st.root = .dir es)
+    (h : createDirAll st p = (st', .ok ())) :
+    (∃ es, getAt st'.root (pathLoc st p) = some (.dir es)) ∧ (comps p).any isDots = false ∧
+    (p.length < PATH_MAX → ∃ tr, parsePath st p = .ok (pathLoc st p, tr)) := by
+  have hm := createDirAll_mono st p
+  rw [h] at hm
+  have hw : writeAllSubPaths st p = (st', .ok ()) := by
+    unfold createDirAll at h
+    split at h
+    · simp at h
+    · split at h <;> exact h
+  have hne : p ≠ [] := by
+    intro hp; subst hp
+    simp [createDirAll] at h
+  -- from a successful `stat` of a path `q` with the same lexical location
+  have fromStat : ∀ q : Bytes, stat st' q = .ok .dir → pathLoc st q = pathLoc st p → comps q = comps p →
+      (∃ es, getAt st'.root (pathLoc st p) = some (.dir es)) ∧ (comps p).any isDots = false := by
+    intro q hs hq hc
+    obtain ⟨loc, tr, es, hpp, hg⟩ := stat_dir st' q hs
+    obtain ⟨hloc, hdots, _, _⟩ := parsePath_ok_loc st' q loc tr hpp
+    rw [pathLoc_cwd st st' q hm.1, hq] at hloc
+    rw [hc] at hdots
+    subst hloc
+    exact ⟨⟨es, hg⟩, hdots⟩
+  have fin : (∃ es, getAt st'.root (pathLoc st p) = some (.dir es)) ∧ (comps p).any isDots = false →
+      (∃ es, getAt st'.root (pathLoc st p) = some (.dir es)) ∧ (comps p).any isDots = false ∧
+      (p.length < PATH_MAX → ∃ tr, parsePath st p = .ok (pathLoc st p, tr)) :=
+    fun ⟨a, b⟩ => ⟨a, b, fun hlen => parsePath_of st p hne hlen b⟩
+  by_cases hl : p.getLast? = some SLASH
+  · by_cases h2 : 2 ≤ p.length
+    · have hp := eq_take_append_slash p hl
+      have hq : p.take (p.length - 1) ≠ [] := by
+        intro hq
+        have : (p.take (p.length - 1)).length = 0 := by rw [hq]; rfl
+        simp at this; omega
+      apply fin
+      rcases writeAllSubPaths_trailing st st' p hl h2 hw with hs | hs
+      · apply fromStat _ hs
+        · conv => rhs; rw [hp]
+          exact (pathLoc_append_slash st _ hq).symm
+        · conv => rhs; rw [hp]
+          exact (comps_append_slash _).symm
+      · exact fromStat p hs rfl rfl
+    · -- the path is exactly "/": no system call is made at all
+      have hp1 : p = [SLASH] := by
+        cases p with
+        | nil => exact absurd rfl hne
+        | cons a r =>
+          cases r with
+          | nil => simp at hl; rw [hl]
+          | cons b r' => simp at h2
+      subst hp1
+      apply fin
+      obtain ⟨es, hes⟩ := hroot
+      have hv : view st.root [] = some .dir := by simp [view, getAt, hes, Node.kind]
+      have hv' := hm.2 [] _ hv
+      have hloc : pathLoc st [SLASH] = [] := by simp [pathLoc, comps, splitSlash]
+      rw [hloc]
+      exact ⟨view_dir _ _ hv', by simp [comps, splitSlash]⟩
+  · apply fin
+    exact fromStat p (createDirAll_isDir_noTrailing st st' p h hl) rfl rfl
+
+/-! ### ReadDir over an arbitrary split of the directory stream -/
+
+theorem encode_length (r : Rec) : (encode r).length = reclen r := by
+  unfold encode le8
+  simp only [List.length_append, List.length_cons, List.length_nil, List.length_replicate]
+  unfold reclen
+  omega
+
+theorem encodeAll_cons (r : Rec) (ps : List Rec) : encodeAll (r :: ps) = encode r ++ encodeAll ps := by
+  simp [encodeAll]
+
+theorem encodeAll_length (c : List Rec) : (encodeAll c).length = (c.map reclen).sum := by
+  induction c with
+  | nil => simp [encodeAll]
+  | cons r ps ih => rw [encodeAll_cons, List.length_append, encode_length, ih]; simp
+
+/-- a record a Linux directory stream can hold: name of at most NAME_MAX = 255 bytes without NUL -/
+def RecOk (r : Rec) : Prop := r.name.length ≤ 255 ∧ ∀ b ∈ r.name, b ≠ 0
+
+/-- one legal `getdents64` answer carrying records: at least one, all of them fit the 512-byte buffer together -/
+def ChunkOk (c : List Rec) : Prop := c ≠ [] ∧ (c.map reclen).sum ≤ 512 ∧ ∀ r ∈ c, RecOk r
+
+instance (r : Rec) : Decidable (RecOk r) := by unfold RecOk; infer_instance
+instance (c : List Rec) : Decidable (ChunkOk c) := by unfold ChunkOk; infer_instance
+
+def entryOf (r : Rec) : Item := .entry r.dtype r.name
+
+/-- iterator state between two refills: the records still `pending` lie at `offset`, `readSize` is their end -/
+structure RdInv (s : ReadDir) (pending : List Rec) : Prop where
+  len : s.buf.length = 512
+  eod : s.eod = false
+  data : ∃ junk, s.buf.drop s.offset = encodeAll pending ++ junk
+  size : s.readSize = s.offset + (encodeAll pending).length
+
+theorem next_pending (s : ReadDir) (r : Rec) (ps : List Rec) (inv : RdInv s (r :: ps)) (hr : RecOk r) :
+    s.next = ({ s with offset := s.offset + reclen r }, entryOf r) ∧
+    RdInv { s with offset := s.offset + reclen r } ps := by
+  obtain ⟨junk, hd⟩ := inv.data
+  have hsz := inv.size
+  rw [encodeAll_cons] at hd
+  rw [encodeAll_cons, List.length_append, encode_length] at hsz
+  have hb := reclen_bounds r hr.1
+  have hne : ¬ s.readSize = s.offset := by omega
+  have hoff : ¬ s.offset > s.buf.length := by
+    intro hgt
+    have : (s.buf.drop s.offset).length = 0 := by simp; omega
+    rw [hd] at this
+    simp [encode_length] at this
+    omega
+  refine ⟨?_, inv.len, inv.eod, ⟨junk, ?_⟩, ?_⟩
+  · unfold ReadDir.next ReadDir.parse
+    simp only [hne, hoff, if_false]
+    rw [hd, List.append_assoc, tryFromBytes_encode r _ hr.1 hr.2]
+    rfl
+  · show s.buf.drop (s.offset + reclen r) = encodeAll ps ++ junk
+    rw [← List.drop_drop, hd, List.append_assoc]
+    have : reclen r = (encode r).length := (encode_length r).symm
+    rw [this, List.drop_left]
+  · show s.readSize = s.offset + reclen r + (encodeAll ps).length
+    omega
+
+/-- draining the pending records: one entry per record, in order; afterwards the buffer is used up -/
+theorem run_pending (ps : List Rec) : ∀ (s : ReadDir) (n : Nat), RdInv s ps → (∀ r ∈ ps, RecOk r) →
+    s.run (ps.length + n) = ps.map entryOf ++ ({ s with offset := s.readSize } : ReadDir).run n := by
+  induction ps with
+  | nil =>
+    intro s n inv _
+    have hsz := inv.size
+    simp [encodeAll] at hsz
+    have : ({ s with offset := s.readSize } : ReadDir) = s := by
+      cases s; simp_all
+    simp [this]
+  | cons r ps ih =>
+    intro s n inv hok
+    obtain ⟨hn, inv'⟩ := next_pending s r ps inv (hok r (by simp))
+    have hlen : (r :: ps).length + n = (ps.length + n) + 1 := by simp; omega
+    rw [hlen, ReadDir.run, hn]
+    simp only [List.map_cons, List.cons_append]
+    rw [ih _ n inv' (fun x hx => hok x (by simp [hx]))]
+
+/-- a refill with a legal chunk: the call that refills already yields the chunk's first record -/
+theorem next_refill (s : ReadDir) (c : List Rec) (rest : List Dents) (hc : ChunkOk c)
+    (hex : s.readSize = s.offset) (heod : s.eod = false) (hlen : s.buf.length = 512)
+    (hans : s.answers = .recs c :: rest) :
+    let s1 : ReadDir := ⟨rest, encodeAll c ++ s.buf.drop (encodeAll c).length, 0, (encodeAll c).length, false⟩
+    s.next = s1.next ∧ RdInv s1 c := by
+  intro s1
+  obtain ⟨hne, hfit, hok⟩ := hc
+  have hl := encodeAll_length c
+  have hpos : 0 < (encodeAll c).length := by
+    cases c with
+    | nil => exact absurd rfl hne
+    | cons r ps =>
+      rw [encodeAll_cons, List.length_append, encode_length]
+      have := reclen_bounds r (hok r (by simp)).1
+      omega
+  have hfit' : (encodeAll c).length ≤ 512 := by omega
+  have h1 : ¬ s1.readSize = s1.offset := by show ¬ (encodeAll c).length = 0; omega
+  constructor
+  · have hs1 : s1.next = s1.parse := by
+      unfold ReadDir.next; simp only [h1, if_false]
+    rw [hs1]
+    unfold ReadDir.next sysGetdents
+    simp only [hex, heod, hans, hlen, hfit', if_true]
+    have : ¬ (encodeAll c).length = 0 := by omega
+    simp [this]
+    rfl
+  · refine ⟨?_, rfl, ⟨s.buf.drop (encodeAll c).length, ?_⟩, ?_⟩
+    · show (encodeAll c ++ s.buf.drop (encodeAll c).length).length = 512
+      simp [hlen]; omega
+    · show (encodeAll c ++ s.buf.drop (encodeAll c).length).drop 0 = _
+      simp
+    · show (encodeAll c).length = 0 + (encodeAll c).length
+      omega
+
+theorem run_succ_congr {s t : ReadDir} {m : Nat} (h : s.next = t.next) : s.run (m + 1) = t.run (m + 1) := by
+  simp only [ReadDir.run, h]
+
+/-- **the iteration over any sequence of legal chunks**: every record of every chunk is yielded exactly once, in
+order, with its exact type and name; afterwards the iterator stands at the next answer with its buffer used up -/
+theorem run_chunks (chunks : List (List Rec)) : ∀ (s : ReadDir) (rest : List Dents) (n : Nat),
+    (∀ c ∈ chunks, ChunkOk c) → s.readSize = s.offset → s.eod = false → s.buf.length = 512 →
+    s.answers = chunks.map Dents.recs ++ rest →
+    ∃ s' : ReadDir, s.run (chunks.flatten.length + n) = chunks.flatten.map entryOf ++ s'.run n ∧
+      s'.readSize = s'.offset ∧ s'.eod = false ∧ s'.buf.length = 512 ∧ s'.answers = rest := by
+  induction chunks with
+  | nil =>
+    intro s rest n _ hex heod hlen hans
+    exact ⟨s, by simp, hex, heod, hlen, by simpa using hans⟩
+  | cons c cs ih =>
+    intro s rest n hok hex heod hlen hans
+    have hc := hok c (by simp)
+    simp only [List.map_cons, List.cons_append] at hans
+    obtain ⟨hnext, inv⟩ := next_refill s c (cs.map Dents.recs ++ rest) hc hex heod hlen hans
+    have hcne : c.length ≠ 0 := by
+      intro h; exact hc.1 (List.length_eq_zero_iff.mp h)
+    have hcount : (c :: cs).flatten.length + n = c.length + (cs.flatten.length + n) := by
+      simp; omega
+    -- the refilling call is the first call of the drain over the refilled state
+    obtain ⟨m, hm⟩ : ∃ m, c.length + (cs.flatten.length + n) = m + 1 := ⟨c.length + (cs.flatten.length + n) - 1, by omega⟩
+    generalize hs1 : (ReadDir.mk (cs.map Dents.recs ++ rest) _ 0 _ false) = s1 at hnext inv
+    rw [hcount, hm, run_succ_congr hnext, ← hm, run_pending c _ _ inv hc.2.2]
+    obtain ⟨s', hrun, h1, h2, h3, h4⟩ := ih { s1 with offset := s1.readSize } rest n
+      (fun x hx => hok x (by simp [hx])) rfl inv.eod inv.len (by rw [← hs1])
+    refine ⟨s', ?_, h1, h2, h3, h4⟩
+    rw [hrun]
+    simp [List.append_assoc]
+
+theorem run_eod_forever (k : Nat) : ∀ s : ReadDir, s.readSize = s.offset → s.eod = true →
+    s.run k = List.replicate k Item.done := by
+  induction k with
+  | zero => intro s _ _; rfl
+  | succ k ih =>
+    intro s h1 h2
+    have : s.next = (s, .done) := by unfold ReadDir.next; simp [h1, h2]
+    rw [ReadDir.run, this, List.replicate_succ, ih s h1 h2]
+
+/-- the answer 0 (or an exhausted script): `None`, and `None` for every later call, without asking again -/
+theorem run_at_eod (s : ReadDir) (k : Nat) (hex : s.readSize = s.offset) (heod : s.eod = false)
+    (hans : s.answers = [] ∨ ∃ tail, s.answers = .eod :: tail) : s.run k = List.replicate k Item.done := by
+  cases k with
+  | zero => rfl
+  | succ k =>
+    rcases hans with ha | ⟨tail, ha⟩
+    · have : s.next = ({ s with answers := [], eod := true }, .done) := by
+        unfold ReadDir.next sysGetdents; simp [hex, heod, ha]
+      simp only [ReadDir.run, this, List.replicate_succ]
+      rw [run_eod_forever k { s with answers := [], eod := true } hex rfl]
+    · have : s.next = ({ s with answers := tail, eod := true }, .done) := by
+        unfold ReadDir.next sysGetdents; simp [hex, heod, ha]
+      simp only [ReadDir.run, this, List.replicate_succ]
+      rw [run_eod_forever k { s with answers := tail, eod := true } hex rfl]
+
+/-- an error answer (EINTR included — the code does not retry): that error once, then `None` forever -/
+theorem run_at_err (s : ReadDir) (k e : Nat) (tail : List Dents) (hex : s.readSize = s.offset) (heod : s.eod = false)
+    (hans : s.answers = .err e :: tail) : s.run (k + 1) = Item.err (.os e) :: List.replicate k Item.done := by
+  have : s.next = ({ s with answers := tail, eod := true }, .err (.os e)) := by
+    unfold ReadDir.next sysGetdents; simp [hex, heod, hans]
+  simp only [ReadDir.run, this]
+  rw [run_eod_forever k { s with answers := tail, eod := true } hex rfl]
+
+theorem readdir_split' (chunks : List (List Rec)) (tail : List Dents) (k : Nat) (hok : ∀ c ∈ chunks, ChunkOk c) :
+    (ReadDir.new (chunks.map Dents.recs ++ .eod :: tail)).run (chunks.flatten.length + k) =
+      chunks.flatten.map entryOf ++ List.replicate k Item.done := by
+  obtain ⟨s', hrun, h1, h2, _, h4⟩ :=
+    run_chunks chunks (ReadDir.new (chunks.map Dents.recs ++ .eod :: tail)) (.eod :: tail) k hok rfl rfl
+      (by exact List.length_replicate) rfl
+  rw [hrun, run_at_eod s' k h1 h2 (Or.inr ⟨tail, h4⟩)]
+
+theorem readdir_split_exhausted' (chunks : List (List Rec)) (k : Nat) (hok : ∀ c ∈ chunks, ChunkOk c) :
+    (ReadDir.new (chunks.map Dents.recs)).run (chunks.flatten.length + k) =
+      chunks.flatten.map entryOf ++ List.replicate k Item.done := by
+  obtain ⟨s', hrun, h1, h2, _, h4⟩ :=
+    run_chunks chunks (ReadDir.new (chunks.map Dents.recs)) [] k hok rfl rfl (by exact List.length_replicate) (List.append_nil _).symm
+  rw [hrun, run_at_eod s' k h1 h2 (Or.inl h4)]
+
+theorem readdir_split_err' (chunks : List (List Rec)) (e : Nat) (tail : List Dents) (k : Nat)
+    (hok : ∀ c ∈ chunks, ChunkOk c) :
+    (ReadDir.new (chunks.map Dents.recs ++ .err e :: tail)).run (chunks.flatten.length + (k + 1)) =
+      chunks.flatten.map entryOf ++ Item.err (.os e) :: List.replicate k Item.done := by
+  obtain ⟨s', hrun, h1, h2, _, h4⟩ :=
+    run_chunks chunks (ReadDir.new (chunks.map Dents.recs ++ .err e :: tail)) (.err e :: tail) (k + 1) hok rfl rfl
+      (by exact List.length_replicate) rfl
+  rw [hrun, run_at_err s' k e tail h1 h2 h4]
+
+/-! ### the kernel's own split (greedy) is one of the legal splits -/
+
+theorem fillRecs_spec (l : List Rec) : ∀ space, (fillRecs l space).1 ++ (fillRecs l space).2 = l ∧
+    (((fillRecs l space).1).map reclen).sum ≤ space := by
+  induction l with
+  | nil => intro space; simp [fillRecs]
+  | cons r rs ih =>
+    intro space
+    unfold fillRecs
+    by_cases h : reclen r ≤ space
+    · simp only [h, if_true]
+      obtain ⟨h1, h2⟩ := ih (space - reclen r)
+      refine ⟨by simp [h1], ?_⟩
+      simp only [List.map_cons, List.sum_cons]
+      omega
+    · simp [h]
+
+theorem fillRecs_first (r : Rec) (rs : List Rec) (space : Nat) (h : reclen r ≤ space) :
+    ∃ t, (fillRecs (r :: rs) space).1 = r :: t := by
+  unfold fillRecs
+  simp [h]
+
+theorem kernelDents_chunks (fuel : Nat) : ∀ rs : List Rec, rs.length ≤ fuel → (∀ r ∈ rs, RecOk r) →
+    ∃ chunks : List (List Rec), kernelDents 512 fuel rs = chunks.map Dents.recs ++ [.eod] ∧ chunks.flatten = rs ∧
+      ∀ c ∈ chunks, ChunkOk c := by
+  induction fuel with
+  | zero =>
+    intro rs hl _
+    cases rs with
+    | nil => exact ⟨[], by simp [kernelDents], rfl, by simp⟩
+    | cons r rs => simp at hl
+  | succ fuel ih =>
+    intro rs hl hok
+    cases rs with
+    | nil => exact ⟨[], by simp [kernelDents], rfl, by simp⟩
+    | cons r rs =>
+      have hb := reclen_bounds r (hok r (by simp)).1
+      have hfit : reclen r ≤ 512 := by omega
+      obtain ⟨hcat, hsum⟩ := fillRecs_spec (r :: rs) 512
+      obtain ⟨t, ht⟩ := fillRecs_first r rs 512 hfit
+      have hmem : ∀ x, x ∈ (fillRecs (r :: rs) 512).1 ∨ x ∈ (fillRecs (r :: rs) 512).2 → x ∈ r :: rs := by
+        intro x hx
+        rw [← hcat]; exact List.mem_append.mpr hx
+      have hlen : (fillRecs (r :: rs) 512).2.length ≤ fuel := by
+        have := congrArg List.length hcat
+        rw [List.length_append, ht] at this
+        simp at this hl
+        omega
+      obtain ⟨chunks, hk, hfl, hck⟩ := ih (fillRecs (r :: rs) 512).2 hlen (fun x hx => hok x (hmem x (Or.inr hx)))
+      refine ⟨(fillRecs (r :: rs) 512).1 :: chunks, ?_, ?_, ?_⟩
+      · simp only [kernelDents, hfit, if_true, hk, List.map_cons, List.cons_append]
+      · simp only [List.flatten_cons, hfl, hcat]
+      · intro c hc
+        simp at hc
+        rcases hc with rfl | hc
+        · exact ⟨by rw [ht]; simp, hsum, fun x hx => hok x (hmem x (Or.inl hx))⟩
+        · exact hck c hc
+
+theorem collect_of_run (ys : List (Nat × Name)) : ∀ s : ReadDir,
+    s.run (ys.length + 1) = ys.map (fun y => Item.entry y.1 y.2) ++ [Item.done] →
+    ReadDir.collect (ys.length + 1) s = .ok ys := by
+  induction ys with
+  | nil =>
+    intro s h
+    simp [ReadDir.run] at h
+    unfold ReadDir.collect
+    cases hn : s.next with
+    | mk s' it => rw [hn] at h; simp at h; subst h; rfl
+  | cons y ys ih =>
+    intro s h
+    simp only [List.length_cons, ReadDir.run, List.map_cons, List.cons_append, List.cons.injEq] at h
+    unfold ReadDir.collect
+    cases hn : s.next with
+    | mk s' it =>
+      rw [hn] at h
+      simp only at h
+      obtain ⟨h1, h2⟩ := h
+      subst h1
+      simp only
+      have := ih s' (by simpa [ReadDir.run] using h2)
+      simp only [List.length_cons] at this ⊢
+      rw [this]
+
+/-- the iterator over the kernel's own (greedy) answers: every record exactly once, in order -/
+theorem readDirAll_exact (rs : List Rec) (hok : ∀ r ∈ rs, RecOk r) :
+    readDirAll rs = .ok (rs.map fun r => (r.dtype, r.name)) := by
+  obtain ⟨chunks, hk, hfl, hck⟩ := kernelDents_chunks rs.length rs (Nat.le_refl _) hok
+  unfold readDirAll
+  rw [hk]
+  have := readdir_split' chunks [] 1 hck
+  rw [hfl] at this
+  have hl : rs.length = (rs.map fun r => (r.dtype, r.name)).length := by simp
+  rw [hl]
+  apply collect_of_run
+  rw [← hl, this]
+  simp [entryOf, List.map_map, Function.comp_def]
+
 end TinyVerif.Fs
